@@ -5,6 +5,8 @@ import "verif/harness/internal/fw"
 var All = map[string]*fw.Prop{
 	"C01": C01,
 	"C02": C02,
+	"C03": C03,
+	"C07": C07,
 	"C04": C04,
 	"C05": C05,
 	"C06": C06,
